@@ -36,6 +36,11 @@ CONFIG = {
              "current real document to match >= 1 node (or to be such an empty slice); plus a structured stream (n/15 cases) for the alias-used-as-a-key "
              "branch: a mapping with an anchored key, aliases of it as value / element / key of a second mapping, changed "
              "through a value alias to a sibling key (refused), to itself, or to a fresh name (renamed).  "
+             "every fifth history mixes CREATE steps in (the real set_value(mustexist=False) on an index at / past the "
+             "end of an existing Array - padding 0-3 -, or a new key of an existing Hash, optionally followed by one more "
+             "key / index): the creation itself is compared by C09's creation part, here it is run so that the later Set / "
+             "Delete steps work on - and are judged on - a document that holds created and padded nodes; the judge counts "
+             "as aliases only the other places of an ANCHORED node.  "
              "every step is compared twice: the model fed with the coordinates captured from the real read side, and "
              "the fully modelled route (set-e2e / del-e2e: evaluator model + Mutate model on document, path text, value); "
              "non-trivial = at least one step applied a change; "
@@ -303,7 +308,11 @@ def set_step(p, path, value, fmt, mustexist):
             new = None
         replaced = {}
         removed = set()
-        alias = hasattr(old, "anchor")
+        # an alias is another place of an ANCHORED node.  In a loaded document an object that sits at two places
+        # always carries an anchor name (the loader shares objects only through `*alias`; interned Python ints /
+        # strs have no `anchor` attribute); an object that a creation put at several places carries none, and
+        # those places are separate nodes of the serialized document, not aliases
+        alias = hasattr(old, "anchor") and bool(anchor_of(old))
         collided = False
         if kind == "T" and not found_new:
             # the new value == a member the set already holds: a set keeps one of them
@@ -396,6 +405,42 @@ def set_step(p, path, value, fmt, mustexist):
     return rec
 
 
+def create_step(p, path, value, fmt):
+    """A Create step of a history: the REAL set_value(mustexist=False) on a path with a missing tail.  The step
+    itself is not compared here (creation is C09's subject: harness/c09b.py compares it with the creation model,
+    identity classes included); it is run so that the later Set / Delete steps of the history work on a document
+    that holds created nodes - padding elements included - and are judged there."""
+    E = mutgen.init_env()
+    rec = {"kind": "skip", "op": "create", "why": "created", "applied": 0, "desc": ("create", path, repr(value), fmt)}
+    try:
+        p.set_value(path, value, mustexist=False, value_format=E["YAMLValueFormats"][fmt])
+    except Exception as e:  # noqa
+        rec["why"] = "create-refused:" + type(e).__name__
+    return rec
+
+
+def gen_create_path(rng, data):
+    """A straight path whose tail is missing: an index at / past the end of an existing Array (padding 0-3), a new
+    key of an existing Hash, optionally followed by one more key / index (a container is then built and padded)."""
+    conts = [(l, n) for l, n in mutgen.walk(data) if isinstance(n, (dict, list)) and not mutgen.is_set(n)]
+    if isinstance(data, (dict, list)) and not mutgen.is_set(data):
+        conts.append(((), data))
+    if not conts:
+        return None
+    loc, node = rng.choice(conts)
+    base = mutgen.path_text(data, loc)
+    base = "" if base == "/" else base
+    if isinstance(node, list):
+        seg = "[%d]" % (len(node) + rng.choice([0, 1, 2, 2, 3]))
+    else:
+        k = rng.choice(["new", "zz", "k9", "n1"])
+        if k in node:
+            return None
+        seg = ("." if base else "") + k
+    tail = rng.choice(["", "", "[2]", "[1]", ".kk", "[2].kk"])
+    return base + seg + tail
+
+
 def gen_value(rng):
     return rng.choice(VALUES)
 
@@ -449,7 +494,17 @@ def run_case(case):
         if p.data is None or not isinstance(p.data, (dict, list)):
             break
         r = rng.random()
-        if script is not None and script[stepno][0] == "set":
+        if script is not None and script[stepno][0] == "create":
+            _, path, value, fmt = script[stepno]
+            rec = create_step(p, path, value, fmt)
+        elif script is None and isinstance(seed, int) and seed % 5 == 0 and r < 0.45 and stepno < length - 1:
+            # every fifth history mixes Create steps in (never as the last step: something must follow)
+            path = gen_create_path(rng, p.data)
+            if path is None:
+                rec = {"kind": "skip", "op": "create", "why": "no-place", "applied": 0}
+            else:
+                rec = create_step(p, path, gen_value(rng), rng.choice(FORMATS))
+        elif script is not None and script[stepno][0] == "set":
             _, path, value, fmt = script[stepno]
             rec = set_step(p, path, value, fmt, True)
             rec["desc"] = ("set", path, repr(value), fmt)
@@ -558,7 +613,9 @@ def classify(case, obs):
     steps = run_case(case)
     ks = []
     for rec in steps:
-        if rec["kind"] != "run":
+        if rec["kind"] != "run" and rec.get("op") == "create":
+            ks.append("c" if rec["why"] == "created" else "C")      # a Create step (run, not compared here)
+        elif rec["kind"] != "run":
             ks.append("-")
         elif rec["op"] == "del":
             ks.append("d" if rec["exc"] is None else "D")
@@ -593,9 +650,16 @@ def undescribe(d):
 
 def _folded_flow(case, obs):
     """A FOLDED value containing a blank was written and the reload then differs."""
+    folded_created = False
     for rec in run_case(case):
-        if rec["kind"] == "run" and rec["op"] == "set" and rec.get("reload") not in ("ok", None):
-            return rec["fmt"] == "FOLDED" and " " in str(rec["value"])
+        if rec.get("op") == "create" and rec.get("why") == "created":
+            # a Create step of the history wrote such a value (the step itself has no reload check; the first
+            # compared step after it shows the defect: the dumped text carries the fold marker)
+            folded_created = folded_created or (rec["desc"][3] == "FOLDED" and " " in rec["desc"][2])
+        if rec["kind"] == "run" and rec.get("reload") not in ("ok", None):
+            if rec["op"] == "set" and rec["fmt"] == "FOLDED" and " " in str(rec["value"]):
+                return True
+            return folded_created and "\\a" in (rec.get("dumped") or "")
     return False
 
 
@@ -630,6 +694,12 @@ CORPUS = [
     script_case("{a: [1, 2, 3], b: []}", [["set", "b[0:2]", "x", "DEFAULT"], ["del", "a[2:1]"], ["del", "a[3:3]"],
                                           ["set", "a[-1:-2]", "x", "DEFAULT"]]),
     script_case("{a: [1, 2, 3], b: 1}", [["set", "(b)+(a[1:0])", "x", "DEFAULT"]]),
+    # histories with Create steps (seed C03_3: the padding elements of a creation were one shared object and a later
+    # set of one of them changed them all)
+    script_case("{a: [], b: keep}", [["create", "/a[2]", "x", "DEFAULT"], ["set", "/a[0]", "y", "DEFAULT"]]),
+    script_case("{a: []}", [["create", "/a[2]/k", "5", "INT"], ["set", "/a[2]/k", "6", "INT"], ["del", "/a[1]"]]),
+    script_case("{a: [1]}", [["create", "/a[3][2]", "x", "DEFAULT"], ["set", "/a[3][0]", "y", "DEFAULT"],
+                             ["set", "/a[1]", "z", "DEFAULT"]]),
     # former C04 F15 inside a history
     script_case("{a: [1, 2, 3, 4]}", [["del", "(a[2])+(a[0])"], ["set", "a[0]", "9", "DEFAULT"]]),
 ]
